@@ -202,7 +202,32 @@ def gen_prim(r, s=1.0, kinds=None):
         else:   # general linear map close to identity (keeps convexity and orientation)
             a = [[1 + r.uniform(-0.3, 0.3), r.uniform(-0.3, 0.3)], [r.uniform(-0.3, 0.3), 1 + r.uniform(-0.3, 0.3)]]
             hi = [[a[0][0] * p[0] + a[0][1] * p[1], a[1][0] * p[0] + a[1][1] * p[1]] for p in lo]
-        if r.random() < 0.25:      # clockwise input: the constructor reverses it
+        # degenerate -z or +z face (as G4GenericTrap allows): collapsed to a point (pyramid,
+        # tetrahedron) or, for quadrilaterals / triangles, to a line (wedge / tent)
+        c = r.random()
+        if c < 0.34:
+            which = r.choice(["lo", "hi"])
+            src = hi if which == "lo" else lo      # the face that stays a proper polygon
+            f = r.uniform(0.0, 0.6)
+            if n in (3, 4) and r.random() < 0.5:
+                mid = lambda a, b: [0.5 * f * (a[0] + b[0]), 0.5 * f * (a[1] + b[1])]
+                if n == 4:
+                    P, Q = mid(src[0], src[1]), mid(src[2], src[3])
+                    col = [P, list(P), Q, list(Q)]
+                else:
+                    P, Q = mid(src[0], src[1]), [f * src[2][0], f * src[2][1]]
+                    col = [P, list(P), Q]
+            else:
+                cx = r.uniform(-0.3, 0.3) * s
+                cy = r.uniform(-0.3, 0.3) * s
+                if r.random() < 0.3:
+                    cx = cy = 0.0
+                col = [[cx, cy] for _ in range(n)]
+            if which == "lo":
+                lo = col
+            else:
+                hi = col
+        if r.random() < 0.4:      # clockwise input (the G4GenericTrap convention): the constructor reverses it
             lo = lo[::-1]
             hi = hi[::-1]
         e = max(max(abs(c_) for p in lo + hi for c_ in p), 1e-3)
@@ -502,3 +527,23 @@ def gen_obj(r, depth, s, spread):
     if r.random() < 0.5:
         w = ("trans", rand_tf(r, 0.3 * s, r.choice(["tl", "rotq", "rot"])), w)
     return ("all", [gen_obj(r, depth - 1, s * 1.2, spread * 0.3), w])
+
+
+# ---------------------------------------------------------------------------
+# general-quadric coefficients under a daughter-to-parent transform x -> R x + t
+# (a b c | d(xy) e(yz) f(zx) | g h i | j):  f'(x) = f(R^T (x - t))
+
+def gq_transform(c, tr):
+    if tr is None:
+        return list(c)
+    R, t = tr[0], tr[1]
+    Q = [[c[0], c[3] / 2, c[5] / 2], [c[3] / 2, c[1], c[4] / 2], [c[5] / 2, c[4] / 2, c[2]]]
+    g = [c[6], c[7], c[8]]
+    RQ = matmul(R, Q)
+    Rt = [[R[j][i] for j in range(3)] for i in range(3)]
+    Q2 = matmul(RQ, Rt)
+    g0 = matvec(R, g)
+    Qt = matvec(Q2, t)
+    g2 = [g0[i] - 2 * Qt[i] for i in range(3)]
+    j2 = sum(t[i] * Qt[i] for i in range(3)) - sum(g0[i] * t[i] for i in range(3)) + c[9]
+    return [Q2[0][0], Q2[1][1], Q2[2][2], 2 * Q2[0][1], 2 * Q2[1][2], 2 * Q2[0][2], g2[0], g2[1], g2[2], j2]
